@@ -128,7 +128,8 @@ Blocked(t) == \E i \in 1..Len(chain[t]) : chain[t][i] = 0
 BlockSeccomp(t) ==
   /\ AllowBlock /\ pc = "idle" /\ t \in threads /\ ~Blocked(t) /\ ~strict[t] /\ ~Denied(t)   \* (the block is staged with prctl)
   /\ chain' = [chain EXCEPT ![t] = Append(@, 0)]
-  /\ nnp' = [nnp EXCEPT ![t] = TRUE]
+  \* (a privileged starter needs no no_new_privs for that, an unprivileged one has to set the bit first - as for DenyPrctl)
+  /\ nnp' = IF priv THEN nnp ELSE [nnp EXCEPT ![t] = TRUE]
   /\ UNCHANGED <<threads, strict, priv, pc, kind, m, locked, req, res, fid, loads, kret, synced>>
 
 \* An enclosing filter (a negative id) that answers prctl(2) with ERRNO(EPERM) is installed on thread t by whoever started the
